@@ -45,35 +45,35 @@ macro_rules! real8 {
 macro_rules! matrix_all_toy {
     ($bs:expr, $w:expr, $C:ident => $body:expr) => {
         dispatch!($bs, $w, $C => $body ;
-            (1,1,U1,U1), (1,4,U1,U4), (2,3,U2,U3), (2,5,U2,U5), (3,2,U3,U2), (4,1,U4,U1), (4,4,U4,U4), (4,8,U4,U8), (4,12,U4,U12), (5,5,U5,U5), (7,2,U7,U2),
+            (1,1,U1,U1), (1,4,U1,U4), (2,3,U2,U3), (2,5,U2,U5), (3,2,U3,U2), (4,1,U4,U1), (4,4,U4,U4), (4,8,U4,U8), (4,12,U4,U12), (4,260,U4,U260), (5,5,U5,U5), (7,2,U7,U2),
             (8,1,U8,U1), (8,3,U8,U3), (8,20,U8,U20), (12,4,U12,U4), (16,1,U16,U1), (16,2,U16,U2), (16,3,U16,U3),
-            (16,8,U16,U8), (16,16,U16,U16), (24,2,U24,U2), (32,4,U32,U4), (48,3,U48,U3), (64,2,U64,U2), (255,2,U255,U2))
+            (16,8,U16,U8), (16,16,U16,U16), (16,256,U16,U256), (24,2,U24,U2), (32,4,U32,U4), (48,3,U48,U3), (64,2,U64,U2), (255,2,U255,U2))
     };
 }
 macro_rules! matrix_div4_toy {
     ($bs:expr, $w:expr, $C:ident => $body:expr) => {
         dispatch!($bs, $w, $C => $body ;
-            (4,1,U4,U1), (4,4,U4,U4), (4,8,U4,U8), (4,12,U4,U12), (8,1,U8,U1), (8,3,U8,U3), (8,20,U8,U20), (12,4,U12,U4), (16,1,U16,U1), (16,2,U16,U2),
-            (16,3,U16,U3), (16,8,U16,U8), (16,16,U16,U16), (24,2,U24,U2), (32,4,U32,U4), (48,3,U48,U3), (64,2,U64,U2))
+            (4,1,U4,U1), (4,4,U4,U4), (4,8,U4,U8), (4,12,U4,U12), (4,260,U4,U260), (8,1,U8,U1), (8,3,U8,U3), (8,20,U8,U20), (12,4,U12,U4), (16,1,U16,U1), (16,2,U16,U2),
+            (16,3,U16,U3), (16,8,U16,U8), (16,16,U16,U16), (16,256,U16,U256), (24,2,U24,U2), (32,4,U32,U4), (48,3,U48,U3), (64,2,U64,U2))
     };
 }
 macro_rules! matrix_div8_toy {
     ($bs:expr, $w:expr, $C:ident => $body:expr) => {
         dispatch!($bs, $w, $C => $body ;
             (8,1,U8,U1), (8,3,U8,U3), (8,20,U8,U20), (16,1,U16,U1), (16,2,U16,U2),
-            (16,3,U16,U3), (16,8,U16,U8), (16,16,U16,U16), (24,2,U24,U2), (32,4,U32,U4), (48,3,U48,U3), (64,2,U64,U2))
+            (16,3,U16,U3), (16,8,U16,U8), (16,16,U16,U16), (16,256,U16,U256), (24,2,U24,U2), (32,4,U32,U4), (48,3,U48,U3), (64,2,U64,U2))
     };
 }
 macro_rules! matrix_div16_toy {
     ($bs:expr, $w:expr, $C:ident => $body:expr) => {
         dispatch!($bs, $w, $C => $body ;
-            (16,1,U16,U1), (16,2,U16,U2), (16,3,U16,U3), (16,8,U16,U8), (16,16,U16,U16), (32,4,U32,U4), (48,3,U48,U3), (64,2,U64,U2))
+            (16,1,U16,U1), (16,2,U16,U2), (16,3,U16,U3), (16,8,U16,U8), (16,16,U16,U16), (16,256,U16,U256), (32,4,U32,U4), (48,3,U48,U3), (64,2,U64,U2))
     };
 }
 macro_rules! matrix_16_toy {
     ($bs:expr, $w:expr, $C:ident => $body:expr) => {
         dispatch!($bs, $w, $C => $body ;
-            (16,1,U16,U1), (16,2,U16,U2), (16,3,U16,U3), (16,8,U16,U8), (16,16,U16,U16))
+            (16,1,U16,U1), (16,2,U16,U2), (16,3,U16,U3), (16,8,U16,U8), (16,16,U16,U16), (16,256,U16,U256))
     };
 }
 
